@@ -444,7 +444,7 @@ def _replay_once(case):
     if kind in ('unexpected_refusal', 'exception'):
         return False, 'build succeeded'
     if kind == 'documented_variable_missing':
-        alg = PyAlg([False] * n)          # solver-free: evaluate the documented meaning on one assignment, names looked up as usual
+        alg = PyAlg([False] * F.number_of_variables())          # solver-free: evaluate the documented meaning on one assignment, names looked up as usual
         for attr in ('spec', 'spec_alternatives', 'schemas'):
             f = getattr(h, attr, None)
             if f is None:
